@@ -178,4 +178,26 @@ theorem crc32_burst4 (pre suf : List UInt8) (a0 a1 a2 a3 b0 b1 b2 b3 : UInt8)
   obtain ⟨e0, e1, e2, e3⟩ := burst4_zero _ _ _ _ h4
   exact h ⟨u8_xor_eq_zero e0, u8_xor_eq_zero e1, u8_xor_eq_zero e2, u8_xor_eq_zero e3⟩
 
+theorem step_zero_zero : step 0#32 (0 : UInt8) = 0#32 := by decide
+
+/-- any change confined to two consecutive bytes changes the checksum (no further byte needs to
+follow: the 4-byte statement does not apply to the last three bytes of a file) -/
+theorem crc32_burst2 (pre suf : List UInt8) (a0 a1 b0 b1 : UInt8)
+    (h : ¬ (a0 = b0 ∧ a1 = b1)) :
+    crc32 (pre ++ a0 :: a1 :: suf) ≠ crc32 (pre ++ b0 :: b1 :: suf) := by
+  intro he
+  unfold crc32 at he
+  have h1 := finalize_injective he
+  rw [update_append, update_append] at h1
+  generalize update init pre = s at h1
+  have h2 : update (step (step s a0) a1) suf = update (step (step s b0) b1) suf := by
+    simpa [update] using h1
+  have h3 := update_injective_state suf h2
+  have h4 : step (step s a0) a1 ^^^ step (step s b0) b1 = 0#32 := by rw [h3, BitVec.xor_self]
+  rw [step_xor, step_xor, BitVec.xor_self] at h4
+  have h5 : step (step (step (step 0#32 (a0 ^^^ b0)) (a1 ^^^ b1)) 0) 0 = 0#32 := by
+    rw [h4, step_zero_zero, step_zero_zero]
+  obtain ⟨e0, e1, _, _⟩ := burst4_zero _ _ _ _ h5
+  exact h ⟨u8_xor_eq_zero e0, u8_xor_eq_zero e1⟩
+
 end TantivyModel.Crc32
